@@ -956,6 +956,28 @@ def _worker(job):
                     out["timeouts"].append({"group": "opt-template", "grammar": gtext, "passes": list(PASS_NAMES)})
                 finally:
                     signal.alarm(0)
+    if prop in ("C04", "C06") or (tier == "thorough" and prop == "C01"):
+        # a five-rule record/list/item/leaf grammar under every assignment of modifiers (sampled in the quick tier)
+        import itertools as _it2
+        all_mods5 = list(_it2.product(["", "_", "@", "$", "!"], repeat=5))
+        nsh5 = do_bundled[1] if do_bundled else NCPU
+        mine5 = [m for j, m in enumerate(all_mods5) if j % nsh5 == shard]
+        if tier != "thorough":
+            # bias towards an atomic rule above hidden levels above visible leaves
+            pri = [m for m in mine5 if "@" in m[:2] and ("$" in m[2:] or "!" in m[2:])]
+            mine5 = rng.sample(pri, min(len(pri), 4)) + rng.sample(mine5, min(len(mine5), 3))
+        for mods in mine5:
+            rules = G.modifier_tree(mods, ws_silent=rng.random() < 0.7)
+            gtext = G.show_grammar(rules)
+            signal.alarm(120)
+            try:
+                eval_grammar(prop, rng, "modifier-tree", gtext, rules, choose_passes(rng, rng.randrange(2)),
+                             [("r0", t, 0) for t in G.TREE_INPUTS], out)
+                out["stats"]["modifier_tree_grammars"] += 1
+            except Timeout:
+                out["timeouts"].append({"group": "modifier-tree", "grammar": gtext, "passes": list(PASS_NAMES)})
+            finally:
+                signal.alarm(0)
     if prop == "C04" or (tier == "thorough" and prop in ("C01", "C06")):
         # chains of four rules under every assignment of modifiers, with a blank at every subset of the gaps
         import itertools as _it
